@@ -545,7 +545,7 @@ def real_ts_sel(i: int) -> bool:
 
 def real_dt_sel(i: int, j: int) -> bool:
     """
-    pre: 0 <= i < len(real_datetimes()) and 0 <= j < len(real_timespans())
+    pre: H.P('ilo', 0) <= i < min(H.P('ihi', 99), len(real_datetimes())) and 0 <= j < len(real_timespans())
     post: _
     """
     with H.NoTracing():
@@ -635,9 +635,10 @@ def conditions(tier, seed):
     add('real_ts_sel', 'real_ts_sel', 'selection: %d REAL timedelta objects (0, +-1us, 2**53+-1 us, centuries + 1us, '
         'timedelta.max/min, datetime.max - datetime.min ...): exact microseconds, exact round trip, unit properties within '
         '2**-51 relative of the exact rational; each path is one concrete evaluation' % len(real_timespans()), timeout=120)
-    add('real_dt_sel', 'real_dt_sel', 'selection: %d REAL datetimes (year 1 / 9999 ends, naive and aware) x %d REAL timedeltas: '
-        '(d+t)-t = d, (d+t)-d = t exactly; each path is one concrete evaluation' % (len(real_datetimes()), len(real_timespans())),
-        timeout=200 if q else 600)
+    for ilo in range(0, len(real_datetimes()), 4):
+        add('real_dt_sel[%d]' % ilo, 'real_dt_sel', 'selection: REAL datetimes #%d..#%d (year 1 / 9999 ends, naive and aware) x %d '
+            'REAL timedeltas: (d+t)-t = d, (d+t)-d = t exactly; each path is one concrete evaluation'
+            % (ilo, min(ilo + 3, len(real_datetimes()) - 1), len(real_timespans())), timeout=300 if q else 600, ilo=ilo, ihi=ilo + 4)
     for key, (func, what) in sorted(PROBES.items()):
         if key in KNOWN:
             out.append({'name': 'probe[%s]' % key.split('/')[1], 'func': func, 'timeout': 60, 'kind': 'probe',
